@@ -108,31 +108,72 @@ func checkCheckWiring(w *World, r *Result) {
 			if call.Ellipsis.IsValid() && identOf(call.Args[1]) != nil && identOf(call.Args[1]).Name == declsVar.Name {
 				appendedDecls = true
 			}
-			if lit, ok := call.Args[len(call.Args)-1].(*ast.CompositeLit); ok {
-				for _, el := range lit.Elts {
-					kv, ok := el.(*ast.KeyValueExpr)
-					if !ok || es(kv.Key) != "Content" {
-						continue
-					}
-					c2, ok := kv.Value.(*ast.CallExpr)
-					if !ok {
-						continue
-					}
-					format, vas := verbArgs(ginfo, c2)
-					if !strings.Contains(format, "CHECK (%s(%s))") || len(vas) != 4 {
-						continue
-					}
-					// ALTER TABLE <table> ADD CONSTRAINT <col>_gomacro CHECK (<fn>(<col>))
-					a := vas
-					if isTableNameExpr(w, gt, a[0].arg, 0) && identOf(a[2].arg) != nil && identOf(a[2].arg).Name == nameVar.Name && es(a[1].arg) == es(a[3].arg) {
-						colDefs := defsIn(ginfo, gt.Decl, objOf(ginfo, identOf(a[1].arg)))
-						if len(colDefs) == 1 && strings.HasSuffix(es(colDefs[0]), ".Field.Field.Name()") {
-							checkOK = true
-						}
+		}
+		// the CHECK text: a Sprintf in the branch, or in a helper of the package called from the branch (the
+		// helper's parameters are then replaced by what the call site passes). Arguments are rendered with
+		// single-definition locals inlined, so `colName := f.Field.Field.Name()` is transparent.
+		checkArgs := func(fi *FuncInfo, scope ast.Node, params map[types.Object]string) {
+			info := fi.Pkg.TypesInfo
+			sub := inlineLocals(info, fi.Decl)
+			for k, v := range params {
+				sub[k] = v
+			}
+			// locals defined from parameters: render again on top of the parameter substitution
+			for k, v := range inlineLocalsWith(info, fi.Decl, params) {
+				sub[k] = v
+			}
+			ast.Inspect(scope, func(y ast.Node) bool {
+				c2, ok := y.(*ast.CallExpr)
+				if !ok || !isSprintf(info, &c2) {
+					return true
+				}
+				format, vas := verbArgs(info, c2)
+				if !strings.Contains(format, "CHECK (%s(%s))") || len(vas) != 4 {
+					return true
+				}
+				// ALTER TABLE <table> ADD CONSTRAINT <col>_gomacro CHECK (<fn>(<col>))
+				var a [4]string
+				for i := range a {
+					a[i] = render(info, vas[i].arg, sub)
+				}
+				jsRoot := ""
+				if init, ok := is.Init.(*ast.AssignStmt); ok {
+					if ta, ok := ast.Unparen(init.Rhs[0]).(*ast.TypeAssertExpr); ok {
+						jsRoot = es(ta.X) // f.SQLType
 					}
 				}
-			}
+				colOwner := strings.TrimSuffix(jsRoot, ".SQLType")
+				if strings.HasPrefix(a[0], "gen.SQLTableName(") && strings.HasSuffix(a[0], ".TableName())") && a[2] == nameVar.Name && a[1] == a[3] && a[1] == colOwner+".Field.Field.Name()" {
+					checkOK = true
+				}
+				return true
+			})
 		}
+		checkArgs(gt, is.Body, nil)
+		ast.Inspect(is.Body, func(y ast.Node) bool {
+			call, ok := y.(*ast.CallExpr)
+			if !ok {
+				return true
+			}
+			fn := calleeOf(ginfo, call)
+			cf := w.Funcs[fn]
+			if fn == nil || cf == nil || cf.Pkg != gt.Pkg || cf == jv || cf.Decl.Body == nil {
+				return true
+			}
+			params := map[types.Object]string{}
+			gsub := inlineLocals(ginfo, gt.Decl)
+			k := 0
+			for _, f := range cf.Decl.Type.Params.List {
+				for _, nm := range f.Names {
+					if k < len(call.Args) {
+						params[cf.Pkg.TypesInfo.Defs[nm]] = render(ginfo, call.Args[k], gsub)
+					}
+					k++
+				}
+			}
+			checkArgs(cf, cf.Decl.Body, params)
+			return true
+		})
 		good = appendedDecls && checkOK
 		return true
 	})
@@ -288,7 +329,7 @@ func checkStructValidator(w *World, r *Result) {
 	okCheck := false
 	ast.Inspect(fl.rs.Body, func(x ast.Node) bool {
 		call, ok := x.(*ast.CallExpr)
-		if !ok || fullName(calleeOf(info, call)) != "fmt.Sprintf" {
+		if !ok || !isSprintf(info, &call) {
 			return true
 		}
 		format, vas := verbArgs(info, call)
@@ -316,12 +357,41 @@ func checkUnionEnumValidators(w *World, r *Result) {
 	fi := w.MustFunc("generator/sql.codeForUnion")
 	info := fi.Pkg.TypesInfo
 	elseFalse := false
+	isElse := func(e ast.Expr) bool {
+		tv := info.Types[e]
+		return tv.Value != nil && tv.Value.Kind() == constant.String && strings.Contains(constant.StringVal(tv.Value), "ELSE RETURN FALSE")
+	}
+	var loops []ast.Node
 	ast.Inspect(fi.Decl.Body, func(x ast.Node) bool {
-		if call, ok := x.(*ast.CallExpr); ok && isBuiltinCall(info, call, "append") && len(call.Args) == 2 {
-			if tv := info.Types[call.Args[1]]; tv.Value != nil && strings.Contains(constant.StringVal(tv.Value), "ELSE RETURN FALSE") {
-				elseFalse = len(pathCondsNoLoop(fi, call)) == 0
+		switch x.(type) {
+		case *ast.RangeStmt, *ast.ForStmt:
+			loops = append(loops, x)
+		}
+		return true
+	})
+	ast.Inspect(fi.Decl.Body, func(x ast.Node) bool {
+		as, ok := x.(*ast.AssignStmt)
+		if !ok || len(as.Lhs) != 1 || len(as.Rhs) != 1 {
+			return true
+		}
+		// `cases = append(cases, "ELSE …")`, or a store of the constant into the last cell of a pre-sized slice
+		adds := false
+		if call, ok := as.Rhs[0].(*ast.CallExpr); ok && isBuiltinCall(info, call, "append") && len(call.Args) == 2 && isElse(call.Args[1]) {
+			adds = true
+		}
+		if _, isIx := as.Lhs[0].(*ast.IndexExpr); isIx && isElse(as.Rhs[0]) {
+			adds = true
+		}
+		if !adds {
+			return true
+		}
+		inLoop := false
+		for _, l := range loops {
+			if l.Pos() <= as.Pos() && as.End() <= l.End() {
+				inLoop = true
 			}
 		}
+		elseFalse = !inLoop && len(pathCondsNoLoop(fi, as)) == 0
 		return true
 	})
 	r.cond(elseFalse, "AGR-C04u", fi.Name, "unknown Kind => FALSE", fnPos(w, fi), "the CASE ends with ELSE RETURN FALSE, appended unconditionally after the member cases", "the union validator no longer rejects an unknown Kind")
@@ -329,7 +399,7 @@ func checkUnionEnumValidators(w *World, r *Result) {
 	okCase := false
 	ast.Inspect(fi.Decl.Body, func(x ast.Node) bool {
 		call, ok := x.(*ast.CallExpr)
-		if !ok || fullName(calleeOf(info, call)) != "fmt.Sprintf" {
+		if !ok || !isSprintf(info, &call) {
 			return true
 		}
 		format, vas := verbArgs(info, call)
@@ -347,7 +417,7 @@ func checkUnionEnumValidators(w *World, r *Result) {
 			continue
 		}
 		sp, ok := ast.Unparen(call.Args[1]).(*ast.CallExpr)
-		if !ok || fullName(calleeOf(info, sp)) != "fmt.Sprintf" {
+		if !ok || !isSprintf(info, &sp) {
 			continue
 		}
 		if f, _ := verbArgs(info, sp); !strings.Contains(f, "WHEN data->>'Kind'") {
@@ -441,6 +511,7 @@ func checkEmptyKeyList(w *World, r *Result) {
 	info := fi.Pkg.TypesInfo
 	var joined ast.Expr
 	var target types.Object
+	var inAssign *ast.AssignStmt
 	ast.Inspect(fi.Decl.Body, func(x ast.Node) bool {
 		as, ok := x.(*ast.AssignStmt)
 		if !ok || len(as.Lhs) != 1 || len(as.Rhs) != 1 {
@@ -454,6 +525,7 @@ func checkEmptyKeyList(w *World, r *Result) {
 				joined = call.Args[0]
 				if id := identOf(as.Lhs[0]); id != nil {
 					target = objOf(info, id)
+					inAssign = as
 				}
 			}
 			return true
@@ -463,40 +535,84 @@ func checkEmptyKeyList(w *World, r *Result) {
 	if joined == nil || target == nil {
 		Undecided("AGR-C04k: the `key IN (...)` list of the struct validator was not found")
 	}
-	found := false
-	ast.Inspect(fi.Decl.Body, func(x ast.Node) bool {
-		is, ok := x.(*ast.IfStmt)
+	// emptiness(c) classifies a path condition as a test on the length of the joined list: +1 "the list is empty",
+	// -1 "the list is not empty", 0 anything else
+	emptiness := func(c pcond) int {
+		be, ok := ast.Unparen(c.expr).(*ast.BinaryExpr)
 		if !ok {
-			return true
+			return 0
 		}
-		assigns := false
-		for _, st := range is.Body.List {
-			if as, ok := st.(*ast.AssignStmt); ok && len(as.Lhs) == 1 {
-				if id := identOf(as.Lhs[0]); id != nil && objOf(info, id) == target {
-					assigns = true
-				}
+		call, ok := ast.Unparen(be.X).(*ast.CallExpr)
+		if !ok || !isBuiltinCall(info, call, "len") || len(call.Args) != 1 || render(info, call.Args[0], nil) != render(info, joined, nil) {
+			return 0
+		}
+		k, isK := constInt(info, be.Y)
+		if !isK {
+			return 0
+		}
+		at := func(n int) bool { return evalCmp(be.Op, n, k) == c.truth }
+		switch {
+		case at(0) && !at(1) && !at(2) && !at(3):
+			return 1
+		case !at(0) && at(1) && at(2) && at(3):
+			return -1
+		}
+		return 0
+	}
+	classify := func(n ast.Node) (kind int, other string) {
+		for _, c := range pathConds(fi.Decl, n) {
+			if c.expr == nil || c.loop {
+				continue
+			}
+			if e := emptiness(c); e != 0 {
+				kind = e
+			} else {
+				other = es(c.expr)
 			}
 		}
-		if !assigns {
-			return true
-		}
-		found = true
-		good := false
-		if be, ok := ast.Unparen(is.Cond).(*ast.BinaryExpr); ok {
-			if call, ok := ast.Unparen(be.X).(*ast.CallExpr); ok && isBuiltinCall(info, call, "len") && len(call.Args) == 1 {
-				if k, isK := constInt(info, be.Y); isK {
-					emptyTrue := evalCmp(be.Op, 0, k)
-					oneFalse := !evalCmp(be.Op, 1, k) && !evalCmp(be.Op, 2, k)
-					good = emptyTrue && oneFalse && render(info, call.Args[0], nil) == render(info, joined, nil)
-				}
+		return
+	}
+	inKind, inOther := classify(inAssign)
+	switch {
+	case inKind == -1 && inOther == "":
+		// `key IN (…)` is only built for a non-empty list; the other value must be the fallback
+		r.ok("AGR-C04k", fi.Name, "`key IN (…)` built only for a non-empty list", w.Pos(inAssign.Pos()), "the assignment is guarded by the non-emptiness of the joined list itself ("+es(joined)+")", true)
+	case inKind == 0 && inOther == "":
+		// built unconditionally: a later assignment under "the joined list is empty" must replace it
+		found, good := false, false
+		why := ""
+		ast.Inspect(fi.Decl.Body, func(x ast.Node) bool {
+			as, ok := x.(*ast.AssignStmt)
+			if !ok || as == inAssign || len(as.Lhs) != 1 || as.Pos() < inAssign.Pos() {
+				return true
 			}
+			if id := identOf(as.Lhs[0]); id == nil || objOf(info, id) != target {
+				return true
+			}
+			found = true
+			k, other := classify(as)
+			if k == 1 && other == "" {
+				good = true
+			} else {
+				var cs []string
+				for _, c := range pathConds(fi.Decl, as) {
+					if c.expr != nil {
+						cs = append(cs, es(c.expr))
+					}
+				}
+				why = strings.Join(cs, " && ")
+			}
+			return true
+		})
+		if !found {
+			r.bad("AGR-C04k", fi.Name, "empty key list replaced by TRUE", fnPos(w, fi), "no fallback for an empty key list: a struct without serialised fields yields `key IN ()`, which is not valid SQL")
+		} else {
+			r.cond(good, "AGR-C04k", fi.Name, "empty key list replaced by TRUE", w.Pos(inAssign.Pos()),
+				"the replacement is guarded by the emptiness of the joined list itself ("+es(joined)+")",
+				"the `key IN (...)` fallback is guarded by `"+why+"`, which is not the emptiness of the joined list "+es(joined)+": a struct whose fields are all ignored (unexported, json:\"-\") yields `key IN ()`, which is not valid SQL, and adding an ignored field changes the output")
 		}
-		r.cond(good, "AGR-C04k", fi.Name, "empty key list replaced by TRUE when "+es(is.Cond), w.Pos(is.Pos()),
-			"the guard tests the emptiness of the joined list itself ("+es(joined)+")",
-			"the `key IN (...)` fallback is guarded by `"+es(is.Cond)+"`, which is not the emptiness of the joined list "+es(joined)+": a struct whose fields are all ignored (unexported, json:\"-\") yields `key IN ()`, which is not valid SQL, and adding an ignored field changes the output")
-		return true
-	})
-	if !found {
-		r.bad("AGR-C04k", fi.Name, "empty key list replaced by TRUE", fnPos(w, fi), "no fallback for an empty key list: a struct without serialised fields yields `key IN ()`, which is not valid SQL")
+	default:
+		r.bad("AGR-C04k", fi.Name, "empty key list replaced by TRUE", w.Pos(inAssign.Pos()),
+			"the `key IN (...)` text is built under `"+inOther+"`, which is not the non-emptiness of the joined list "+es(joined)+": a struct whose fields are all ignored (unexported, json:\"-\") yields `key IN ()`, which is not valid SQL, and adding an ignored field changes the output")
 	}
 }
